@@ -236,6 +236,18 @@ partial def treeShaped (h : Heap) (v : Val) (seen : List Nat) : Option (List Nat
       | some (.list xs) => xs.foldl (fun acc x => acc.bind (treeShaped h x)) (some seen)
       | none => some seen
 
+/-- does the unfolding of `v` have at most `fuel` nodes?  (`none` = no: a cyclic store, or one whose
+sharing makes the unfolding huge; the remaining fuel otherwise) -/
+partial def sizeWithin (h : Heap) (v : Val) (fuel : Nat) : Option Nat :=
+  if fuel = 0 then none else
+  match v with
+  | .atom _ => some (fuel - 1)
+  | .ref id =>
+    match h[id]? with
+    | some (.dict es) => es.foldl (fun acc kv => acc.bind (sizeWithin h kv.2)) (some (fuel - 1))
+    | some (.list xs) => xs.foldl (fun acc x => acc.bind (sizeWithin h x)) (some (fuel - 1))
+    | none => some (fuel - 1)
+
 def nodupB : List Nat → Bool
   | [] => true
   | x :: xs => !xs.contains x && nodupB xs
@@ -564,6 +576,9 @@ def runOp (st : MState) (op : Json) : E (MState × Json) := do
         | none => return finishErr st (pyErrJ "IndexError")
       | "l.in", [vs] => do
         let (h, v) ← decValSpec st vs
+        -- `in` compares unfolded values: on a store that is cyclic (the generators never make one; a broken
+        -- implementation under test can lead the model there) the comparison would not end
+        if (sizeWithin h (.ref id) 20000).isNone then return finishErr st (pyErrJ "RecursionError") else
         match lContains c h id v with
         | some b => return finish { st with heap := h } "ok" [.bool b] none
         | none => return finishErr st (pyErrJ "TypeError")
